@@ -399,7 +399,8 @@ Lemma sort_denoted_perm : forall src defs defs', class_facts defs -> defs_perm d
   pick_last sel_version defs [] = pick_last sel_version defs' [] ->
   sort_db (denoted_db src defs) = sort_db (denoted_db src defs').
 Proof.
-  intros src defs defs' CF Hp Hv. unfold sort_db, sort_db_with, denoted_db. cbn. rewrite Hv. f_equal.
+  intros src defs defs' CF Hp Hv. unfold sort_db, sort_db_with, denoted_db.
+  cbn [db_source_file db_version db_messages db_nodes]. rewrite Hv. f_equal.
   - rewrite !sort_db_messages_alt, !map_map.
     pose proof (message_defs_perm _ _ Hp) as [mm [Pm Fm]].
     apply (sort_slice_perm_eq msg_less msg_id msg_less_trans msg_less_asym msg_less_total).
@@ -521,7 +522,8 @@ Proof.
     + exists (l1 ++ DMessage m :: l2). split; [reflexivity|].
       apply Forall2_app; [apply Forall2_refl; constructor|].
       constructor; [now constructor|apply Forall2_refl; constructor].
-    + intro d. now rewrite !(pick_last_skip sel_version l1 _ l2 d eq_refl).
+    + intro d. rewrite (pick_last_skip sel_version l1 (DMessage m) l2 d eq_refl).
+      now rewrite (pick_last_skip sel_version l1 (DMessage m') l2 d eq_refl).
 Qed.
 
 Theorem compile_perm : forall src defs defs', in_class defs = true -> perm42 defs defs' ->
@@ -580,16 +582,4 @@ Proof.
   intros defs db H. unfold denotes_check_lhs, denotes_check_rhs in H.
   apply (denotes_db_perm defs (sort_db db)); [apply db_perm_sym, sort_db_perm|].
   rewrite H. eapply denotes_db_perm; [apply sort_db_perm|apply denoted_db_denotes].
-Qed.
-
-(** in the class the check accepts the compiled database (so a PFAIL of the driver is never an
-    artefact of the decision procedure when implementation = model) *)
-Lemma sort_slice_sorted_id : forall {A K} (less : A -> A -> bool) (key : A -> K),
-  (forall a b c, less a b = true -> less b c = true -> less a c = true) ->
-  (forall a b, less a b = true -> less b a = false) ->
-  (forall a b, key a <> key b -> less a b = true \/ less b a = true) ->
-  forall l, NoDup (map key l) -> sort_slice less (sort_slice less l) = sort_slice less l.
-Proof.
-  intros A K less key Ht Ha Hto l Hn. symmetry.
-  apply (sort_slice_perm_eq less key Ht Ha Hto); [exact Hn|apply sort_slice_perm].
 Qed.
